@@ -99,6 +99,32 @@ def C22_statement (c : Cfg) : Prop :=
 
 /-! ## exclusive scopes (the repaired code): every schedule -/
 
+/-- Task trees.  An invocation created by a *finished* invocation -- in a copy of its
+context, as `asyncio.create_task` does -- is an ordinary invocation: the creator's
+context lists no open scope of the manager, whatever happened before, so the new task
+takes the lock like anybody else.  Hence every theorem here, quantifying over arbitrary
+`spawn`s, covers resolve-then-spawn trees of any depth (a parent-workflow step with
+injected resources running a child workflow; user code warming a resource before a
+fan-out). -/
+theorem C22_created_by_finished_is_fresh (c : Cfg) (g : Graph) (acts : List Act) (p : Nat) (k : Task)
+    (o : Outcome) (reqs : List Nat) (bare : Bool)
+    (h : (run c g acts).tasks[p]? = some k) (hd : k.phase = .done o) :
+    heldIn (run c g acts) p = false ∧
+    stepFrom c g (run c g acts) p reqs bare = step c g (run c g acts) (.spawn reqs bare) := by
+  have hh : heldIn (run c g acts) p = false := by
+    unfold heldIn
+    rw [h]
+    simp [hd]
+  refine ⟨hh, ?_⟩
+  unfold stepFrom
+  rw [h]
+  simp [hd, hh]
+
+example : ∃ (g : Graph) (acts : List Act) (k : Task) (s : St),
+    (run ⟨true, true⟩ g acts).tasks[0]? = some k ∧ k.phase = .done (.ok [0]) ∧
+    stepFrom ⟨true, true⟩ g (run ⟨true, true⟩ g acts) 0 [0] false = some s ∧ s.tasks.length = 2 :=
+  ⟨[⟨true, false, false, [], .obj⟩], [.spawn [0] false, .tick, .tick, .tick, .tick], _, _, rfl, rfl, rfl, rfl⟩
+
 /-- At most one invocation is inside a resolution scope, whatever the schedule. -/
 theorem C22_mutual_exclusion (b : Bool) (g : Graph) (acts : List Act) (t t' : Nat) (k k' : Task)
     (h1 : (run ⟨true, b⟩ g acts).tasks[t]? = some k) (h2 : (run ⟨true, b⟩ g acts).tasks[t']? = some k')
